@@ -30,7 +30,7 @@ def top_key(mode, keys, strict, rng):
     return (m >> 2) * 4 + rng.randrange(4)
 
 
-def gen_case(rng, cid, variant=None, k=None):
+def gen_case(rng, cid, variant=None, k=None, fresh_p=0.3):
     v = variant or rng.choice(VARIANTS)
     guarded = v[1] == "g"
     mode = rng.choice(["lt", "lt", "gt", "q4"])
@@ -71,10 +71,28 @@ def gen_case(rng, cid, variant=None, k=None):
             seqs = [q + [s] for q in seqs]
     total = sum(len(q) for q in seqs)
     lines = [f"case {cid}",
-             f"new {v} {mode} {k} {sen} " + " ".join(",".join(map(str, q)) if q else "-" for q in seqs),
-             init_line(rng, k)]
+             f"new {v} {mode} {k} {sen} " + " ".join(",".join(map(str, q)) if q else "-" for q in seqs)]
+    lines += storage_lines(rng, v, fresh_p)
+    lines.append(init_line(rng, k))
     lines += ["replace"] * (total + 1)
     return lines
+
+
+def storage_lines(rng, v, fresh_p=0.3):
+    """where the keys handed to the tree live: the pointer classes must never read a key the
+    caller has consumed (head slot refilled in place / consumed keys freed)"""
+    r = rng.random()
+    if v[0] == "p":
+        # `fresh` turns every stale read into an ASan abort (one harness restart each): keep the
+        # share small when many cases are generated
+        if r < 0.35:
+            return ["storage slot"]
+        if r < 0.35 + fresh_p:
+            return ["storage fresh"]
+        return []
+    if r < 0.1:
+        return [rng.choice(["storage slot", "storage fresh"])]
+    return []
 
 
 def init_line(rng, k):
@@ -106,9 +124,10 @@ def exhaustive_cases(kmax, variants, start_id):
                 total = sum(len(q) for q in seqs)
                 order = ["init", "init " + ",".join(map(str, range(k - 1, -1, -1))),
                          "init " + ",".join(map(str, list(range(1, k)) + [0]))][cid % 3]
+                st = ([[], ["storage slot"], ["storage fresh"]][(cid // 3) % 3]) if v[0] == "p" else []
                 cs.append([f"case x{cid}",
-                           f"new {v} lt {k} {sen} " + " ".join(",".join(map(str, q)) if q else "-" for q in seqs),
-                           order] + ["replace"] * (total + 1))
+                           f"new {v} lt {k} {sen} " + " ".join(",".join(map(str, q)) if q else "-" for q in seqs)]
+                          + st + [order] + ["replace"] * (total + 1))
                 cid += 1
     return cs
 
@@ -176,7 +195,7 @@ class C09(flow.Spec):
             for k in range(1, 18):
                 cs.append(gen_case(rng, f"g{cid}", v, k)); cid += 1
         for _ in range(n):
-            cs.append(gen_case(rng, f"g{cid}")); cid += 1
+            cs.append(gen_case(rng, f"g{cid}", fresh_p=0.3 if tier == "quick" else 0.02)); cid += 1
         if round_no == 0:
             cs += exhaustive_cases(3 if tier == "quick" else 4, VARIANTS, 0)
             if tier == "quick":
@@ -197,10 +216,10 @@ class C09(flow.Spec):
         t = case[1].split()
         if len(t) < 5 or int(t[3]) < 3:
             return None
-        done = sum(1 for op, a in zip(case[3:], answers[3:]) if op == "replace" and a.startswith("w="))
+        done = sum(1 for op, a in zip(case[2:], answers[2:]) if op == "replace" and a.startswith("w="))
         keys = [x for q in t[5:] if q != "-" for x in q.split(",")]
         if done >= 3 and len(set(keys)) < len(keys):
-            return case[1]
+            return (case[1], case[2])
         return None
 
 
